@@ -4,6 +4,7 @@ package jsonata
 
 import (
 	"math"
+	"reflect"
 )
 
 // Outcome kinds of an evaluation.
@@ -101,4 +102,41 @@ func hNorm(v interface{}) interface{} {
 		return out
 	}
 	return v
+}
+
+// hDeepCopy copies a JSON-shaped value (what a JSON encode/decode round trip yields for such values).
+func hDeepCopy(v interface{}) interface{} {
+	switch x := v.(type) {
+	case []interface{}:
+		out := make([]interface{}, len(x))
+		for i := range x {
+			out[i] = hDeepCopy(x[i])
+		}
+		return out
+	case map[string]interface{}:
+		out := make(map[string]interface{}, len(x))
+		for k, e := range x {
+			out[k] = hDeepCopy(e)
+		}
+		return out
+	case *interface{}:
+		if x == nil {
+			return nil
+		}
+	}
+	return v
+}
+
+// VerifSummary_clone stands in for (*transformationCallable).clone, which copies its argument by a
+// JSON text round trip (jlib.String + json.Decoder). Number formatting/parsing is the library's and
+// cannot be encoded for symbolic numbers, so the round trip is summarised as the deep structural
+// copy it denotes on JSON-shaped values. Stated in specs (stubs) wherever it is used.
+func VerifSummary_clone(f *transformationCallable, v reflect.Value) (reflect.Value, error) {
+	if v == undefined {
+		return undefined, nil
+	}
+	if !v.CanInterface() {
+		return undefined, ErrUndefined
+	}
+	return reflect.ValueOf(hDeepCopy(v.Interface())), nil
 }
